@@ -1,28 +1,46 @@
 ---------------------------- MODULE GenQuery ----------------------------
 (* Program generator: condition trees are built by actions that mirror   *)
-(* the public API call by call (push a leaf, not_, and_, or_, wrap in    *)
-(* entity/set_of), so breadth-first search enumerates every tree up to   *)
-(* the bound exactly once and -simulate random-walks to larger ones.     *)
-(* Finished programs are exported as JSON (inputs only).                 *)
+(* the public API call by call (push a leaf, not_, and_, or_, for_all,   *)
+(* wrap in entity/set_of), so breadth-first search enumerates every tree *)
+(* up to the bound exactly once and -simulate random-walks to larger     *)
+(* ones.  Finished programs are exported as JSON (inputs only).          *)
 EXTENDS EQLSyntax, Json
 
-CONSTANTS NV,          \* number of declared variables (1 = grammar G1, 2..3 = G2)
+CONSTANTS G,           \* grammar: "G12" (NV variables), "G3" for_all, "G6" sub-queries, "G7i"/"G7o" flatten, "G7c" concatenate
+          NV,          \* number of declared variables for G12
           LeafLimit,   \* use the first LeafLimit leaves of the vocabulary
           MaxLeaves,   \* leaves per tree
           MaxNot,      \* consecutive not_ applications
           NeedNot      \* TRUE: export only trees that contain a negation (C03)
 
-Leaves == Some(IF NV = 1 THEN LeavesG1 ELSE LeavesG2(NV), LeafLimit)
+AllLeaves == CASE G = "G12" -> (IF NV = 1 THEN LeavesG1 ELSE LeavesG2(NV))
+               [] G = "G3"  -> LeavesG3
+               [] G = "G6"  -> LeavesG6
+               [] G = "G7i" -> LeavesG7("int")
+               [] G = "G7o" -> LeavesG7("obj")
+               [] G = "G7c" -> LeavesG7c
+Leaves == Some(AllLeaves, LeafLimit)
 
-\* selections offered by Finish: <<desc, sel>>
+\* what Finish may wrap the tree in: [desc, sel, flats, bound]
+Sel(desc, sel) == [desc |-> desc, sel |-> sel, flats |-> <<>>, bound |-> <<>>]
+SelF(desc, sel, src) == [desc |-> desc, sel |-> sel, flats |-> <<src>>, bound |-> <<>>]
 Selections ==
-  IF NV = 1 THEN << <<"entity", <<V(1)>> >> >>
-  ELSE IF NV = 2 THEN
-       << <<"set_of", <<V(1), V(2)>> >>, <<"entity", <<V(1)>> >>, <<"set_of", <<V(2), V(1)>> >>,
-          <<"entity", <<V(2)>> >>, <<"set_of", <<V(2)>> >>, <<"set_of", <<V(1), At(V(2), "n")>> >>,
-          <<"set_of", <<At(V(1), "m"), V(2), V(1)>> >> >>
-  ELSE << <<"set_of", <<V(1), V(2), V(3)>> >>, <<"set_of", <<V(3), V(1)>> >>, <<"entity", <<V(2)>> >>,
-          <<"set_of", <<V(2), V(3), V(1)>> >> >>
+  CASE G = "G12" ->
+       (IF NV = 1 THEN << Sel("entity", <<V(1)>>) >>
+        ELSE IF NV = 2 THEN
+          << Sel("set_of", <<V(1), V(2)>>), Sel("entity", <<V(1)>>), Sel("set_of", <<V(2), V(1)>>),
+             Sel("entity", <<V(2)>>), Sel("set_of", <<V(2)>>), Sel("set_of", <<V(1), At(V(2), "n")>>),
+             Sel("set_of", <<At(V(1), "m"), V(2), V(1)>>) >>
+        ELSE << Sel("set_of", <<V(1), V(2), V(3)>>), Sel("set_of", <<V(3), V(1)>>), Sel("entity", <<V(2)>>),
+                Sel("set_of", <<V(2), V(3), V(1)>>) >>)
+    [] G = "G3" -> << [desc |-> "entity", sel |-> <<V(1)>>, flats |-> <<>>, bound |-> <<2>>] >>
+    [] G = "G6" -> << Sel("set_of", <<V(1), V(2)>>), Sel("entity", <<V(1)>>), Sel("set_of", <<V(2), V(1)>>) >>
+    [] G \in {"G7i", "G7o"} ->
+       LET srcs == FlatSources(IF G = "G7i" THEN "int" ELSE "obj")
+       IN Cat([j \in 1..Len(srcs) |-> << SelF("entity", <<Flat(1)>>, srcs[j]), SelF("set_of", <<V(1), Flat(1)>>, srcs[j]),
+                                         SelF("set_of", <<Flat(1), V(1)>>, srcs[j]), SelF("set_of", <<Flat(1)>>, srcs[j]) >>])
+    [] G = "G7c" -> << [desc |-> "entity", sel |-> <<V(2)>>, flats |-> <<>>, bound |-> <<1>>],
+                       [desc |-> "set_of", sel |-> <<V(2)>>, flats |-> <<>>, bound |-> <<1>>] >>
 
 VARIABLES stack, done
 vars == <<stack, done>>
@@ -35,26 +53,38 @@ Pop(n) == SubSeq(stack, 1, Len(stack) - n)
 
 PushLeaf(j) == /\ done = <<>> /\ Total < MaxLeaves
                /\ stack' = Append(stack, Leaves[j]) /\ UNCHANGED done
-ApplyNot(form) == /\ done = <<>> /\ stack # <<>> /\ NotDepth(Top) < MaxNot
+ApplyNot(form) == /\ done = <<>> /\ stack # <<>> /\ NotDepth(Top) < MaxNot /\ Top.k # "forall" /\ ~HasSub(Top)
                   /\ stack' = Append(Pop(1), NotC(Top, form)) /\ UNCHANGED done
 ApplyBin(kind, form) ==
   /\ done = <<>> /\ Len(stack) >= 2
+  /\ (kind = "or" => ~HasSubOperand(Top) /\ ~HasSubOperand(stack[Len(stack) - 1]))
   /\ LET l == stack[Len(stack) - 1] r == Top
      IN stack' = Append(Pop(2), IF kind = "and" THEN AndC(l, r, form) ELSE OrC(l, r, form))
   /\ UNCHANGED done
+\* for_all(u, c): quantify the tree on top of the stack; afterwards only conjunction with conditions on the
+\* free variable is offered (what the property speaks about)
+ApplyForAll(ue) == /\ G = "G3" /\ done = <<>> /\ Len(stack) = 1 /\ ~HasForAll(Top)
+                   /\ stack' = <<ForAllC(<<2>>, ue, Top)>> /\ UNCHANGED done
+PushOuter(j, side) == /\ G = "G3" /\ done = <<>> /\ Len(stack) = 1 /\ Top.k = "forall"
+                      /\ stack' = << IF side = "l" THEN AndC(OuterG3[j], Top, "fn") ELSE AndC(Top, OuterG3[j], "fn") >>
+                      /\ UNCHANGED done
 Finish(s) == /\ done = <<>> /\ Len(stack) = 1
              /\ (NeedNot => HasNot(Top))
-             /\ done' = <<[desc |-> Selections[s][1], sel |-> Selections[s][2], cond |-> Top]>>
+             /\ (G = "G3" => HasForAll(Top))
+             /\ done' = <<[desc |-> Selections[s].desc, sel |-> Selections[s].sel, flats |-> Selections[s].flats,
+                           bound |-> Selections[s].bound, cond |-> Top]>>
              /\ stack' = <<>>
 
-Next == \/ \E j \in 1..Len(Leaves) : PushLeaf(j)
-        \/ ApplyNot("fn")
+Next == \/ \E j \in 1..Len(Leaves) : PushLeaf(j) /\ (G = "G3" => ~(stack # <<>> /\ HasForAll(Top)))
+        \/ ApplyNot("fn") /\ (G = "G3" => ~HasForAll(Top))
         \/ \E kind \in {"and", "or"} : ApplyBin(kind, "fn")
+        \/ \E ue \in {1, 2} : ApplyForAll(IF ue = 1 THEN V(2) ELSE At(V(2), "n"))
+        \/ \E j \in 1..Len(OuterG3), side \in {"l", "r"} : PushOuter(j, side)
         \/ \E s \in 1..Len(Selections) : Finish(s)
 Spec == Init /\ [][Next]_vars
 
 \* export every finished program (used with -workers 1)
 Export == done # <<>> => PrintT(<<"PROG", ToJson(done[1])>>)
 \* structural sanity of the builder
-WellFormed == \A j \in 1..Len(stack) : NLeaves(stack[j]) <= MaxLeaves /\ NotDepth(stack[j]) <= MaxNot
+WellFormed == \A j \in 1..Len(stack) : NLeaves(stack[j]) <= MaxLeaves + 1 /\ NotDepth(stack[j]) <= MaxNot
 =========================================================================
